@@ -108,14 +108,6 @@ Fixpoint wrun (s : W) (cs : list C) : W * list R :=
   | c :: r => let '(s1, x) := wstep s c in let '(s2, xs) := wrun s1 r in (s2, x :: xs)
   end.
 
-(* every recv is preceded by its send: lens = number of replies outstanding per worker *)
-Fixpoint can_run (lens : list nat) (prog : list instr) : bool :=
-  match prog with
-  | [] => true
-  | Send i _ :: r => match nth_error lens i with Some k => can_run (set_nth i (S k) lens) r | None => false end
-  | Recv i :: r => match nth_error lens i with Some (S k) => can_run (set_nth i k lens) r | _ => false end
-  end.
-
 (* ---- parent programs of the SubprocVecEnv methods, as data: phases over target workers ---- *)
 (* send to every target, in target order / receive from every target, in target order *)
 Definition sends (targets : list nat) (payload : nat -> C) : list instr := map (fun i => Send i (payload i)) targets.
@@ -258,7 +250,7 @@ Definition run_dummy_scripted (scs : list script) (flags : list bool) (cs : list
   snd (dhistory sworker_step (winitw scs flags) (calls_methods (length scs) (repeat None (length scs)) (repeat None (length scs)) cs)).
 
 (* a schedule given as a list of choices: choice k picks the (k mod m)-th of the m enabled actions
-   (parent first, then workers by index); fuel bounds the run *)
+   (parent first, then workers by index); fuel bounds the run (a complete run takes one action per parent instruction plus one per command sent: at most 2 * length prog) *)
 Definition enabled {W C R} (wstep : W -> C -> W * R) (cfg : config W C R) : list action :=
   (match step wstep cfg ActP with Some _ => [ActP] | None => [] end)
   ++ flat_map (fun i => match step wstep cfg (ActW i) with Some _ => [ActW i] | None => [] end) (seq 0 (length (workers cfg))).
@@ -281,7 +273,7 @@ Fixpoint run_choices {W C R} (wstep : W -> C -> W * R) (fuel : nat) (choices : l
 (* (remaining program length, received log) of the scripted protocol model under the given choices *)
 Definition run_subproc_scripted (scs : list script) (cs : list call) (choices : list nat) : nat * list (nat * sres) :=
   let prog := calls_prog (length scs) (repeat None (length scs)) (repeat None (length scs)) cs in
-  let cfg := run_choices sworker_step (4 * length prog + 4) choices (init prog (winit scs)) in
+  let cfg := run_choices sworker_step (2 * length prog) choices (init prog (winit scs)) in
   (length (pc cfg), log cfg).
 (* the sequential reference on the same program *)
 Definition run_seq_scripted (scs : list script) (cs : list call) : option (list (nat * sres)) :=
@@ -290,5 +282,5 @@ Definition run_seq_scripted (scs : list script) (cs : list call) : option (list 
 (* the same with per-env "is wrapped" flags *)
 Definition run_subproc_scripted_w (scs : list script) (flags : list bool) (cs : list call) (choices : list nat) : nat * list (nat * sres) :=
   let prog := calls_prog (length scs) (repeat None (length scs)) (repeat None (length scs)) cs in
-  let cfg := run_choices sworker_step (4 * length prog + 4) choices (init prog (winitw scs flags)) in
+  let cfg := run_choices sworker_step (2 * length prog) choices (init prog (winitw scs flags)) in
   (length (pc cfg), log cfg).
